@@ -27,3 +27,25 @@ def run_lines(ctx, cases):
     reqs = ["%d %d %d %s %d" % (c["order"], c["td"], c["lim"], enc(c["line"]), c.get("at", -1)) for c in cases]
     resps, crashes = run_probe(exe, reqs)
     return [(json.loads(r) if r else None, cr) for r, cr in zip(resps, crashes)]
+
+
+MARK_LINES = ["\u0633\u0644\u0627\u0645 \\*[ab \u06af\u0644 cd] \u062f\u0646\u06cc\u0627", "\u0633\u0644\u0627\u0645 \\x{ab \u062f\u0646\u06cc\u0627} \u0633\u0644\u0627\u0645",
+              "\u0633\u0644\u0627\u0645 \\fB{\u0633\u0644\u0627\u0645 de} x", "abc \\*[\u06af\u0644 ab \u06af\u0644] def", "$x+y$ \u0633\u0644\u0627\u0645", "\u0633\u0644\u0627\u0645 $x+y$ \u062f\u0646\u06cc\u0627",
+              "\\cmd{ab} \u0633\u0644\u0627\u0645", "\u0633\u0644\u0627\u0645 \\word ab", "ab \\*[cd] ef", "\u0633\u0644\u0627\u0645 \\*[\\x{ab \u06af\u0644} c] \u062f\u0646\u06cc\u0627",
+              "\u0633\u0644\u0627\u0645 \\x{a\tb \u062f\u0646\u06cc\u0627} \u0633", "\u0633 \\*[a\u6f22 \u06af\u0644\u06af c] \u062f", "ab \u0633\u0644\u0627\u0645 \\x{cd \u06af\u0644 ef} gh",
+              "\u0633\u0644 \\*[ab] \\*[cd \u06af\u0644] \u062f", "\u0633\u0644\u0627\u0645 `ab cd' \u062f", "x \\*[\u06af\u0644] $a$ \\y{\u062f\u0646}"]
+
+
+def mark_tables(ctx, nopt):
+    """lines with nested direction marks (mode marklist of Gen_Layout), nopt option combinations each"""
+    env, info = lib_env(ctx)
+    jobs = []
+    per = max(1, (len(MARK_LINES) + NCPU - 1) // NCPU)
+    for i in range(0, len(MARK_LINES), per):
+        f = ctx.path("gen", "marklines_%d.ndjson" % i)
+        open(f, "w").write("".join(json.dumps([ord(c) for c in x]) + "\n" for x in MARK_LINES[i:i + per]))
+        jobs.append(dict(MODE="marklist", IDXFILE=f, NOPT=nopt, **env))
+    cases = []
+    for job, path in gen_tables(ctx, jobs, module="Gen_Layout", timeout=2400):
+        cases += [json.loads(ln) for ln in open(path)]
+    return cases
